@@ -140,6 +140,15 @@ static void case_planarise(const Args &a, long idx, bool wantDesc, CaseResult &r
         R.shuffle(opts); for (auto &o : opts) if (clear(o, s, t)) { er.push_back(ER{s, t, o}); used.insert({std::min(s, t), std::max(s, t)}); break; }
     }
     if (er.empty()) { res.inconclusive = "no-routable-edge"; return; }
+    // non-simplified routes: extra route points in the middle of straight runs, at lattice positions where other routes may cross
+    std::set<std::pair<double, double>> extraH, extraV; int collinear = R.coin(0.35) ? (int)R.ri(1, 3) : 0;   // 1: on horizontal runs, 2: on vertical runs, 3: both
+    bool dense = R.coin(0.3); long budget = dense ? 1000 : R.ri(1, 3);
+    if (collinear) { std::vector<size_t> order(er.size()); for (size_t i = 0; i < order.size(); i++) order[i] = i; R.shuffle(order);
+      for (size_t oi : order) { auto &e = er[oi]; std::vector<std::pair<double, double>> r2; r2.push_back(e.route[0]);
+        for (size_t i = 1; i < e.route.size(); i++) { auto A = e.route[i - 1], B = e.route[i]; bool h = A.second == B.second; double len = h ? B.first - A.first : B.second - A.second; int steps = (int)std::lround(std::fabs(len) / 10);
+            if ((h && (collinear & 1)) || (!h && (collinear & 2))) for (int k = 1; k < steps; k++) if (budget > 0 && R.coin(dense ? 0.3 : 0.5)) { double d = (len > 0 ? 10.0 : -10.0) * k; std::pair<double, double> q = h ? std::make_pair(A.first + d, A.second) : std::make_pair(A.first, A.second + d); r2.push_back(q); (h ? extraH : extraV).insert(q); budget--; }
+            r2.push_back(B); }
+        e.route = r2; } }
     JArr nj; for (auto &p : pos) nj.raw(JArr().num(p.first).num(p.second).done());
     JArr ej; for (auto &e : er) { JArr r; for (auto &q : e.route) r.raw(JArr().num(q.first).num(q.second).done()); ej.raw(JObj().i("s", e.s).i("t", e.t).raw("route", r.done()).done()); }
     std::string desc = JObj().str("operation", "OrthoPlanariser::planarise").raw("node_centres(6x6 boxes)", nj.done()).raw("edges", ej.done()).done();
@@ -147,7 +156,7 @@ static void case_planarise(const Args &a, long idx, bool wantDesc, CaseResult &r
     // count proper crossings of the input routes (for non-triviality)
     long crossings = 0; std::vector<std::pair<int, Seg>> segs; for (size_t e = 0; e < er.size(); e++) for (size_t i = 1; i < er[e].route.size(); i++) segs.push_back({(int)e, Seg{er[e].route[i - 1].first, er[e].route[i - 1].second, er[e].route[i].first, er[e].route[i].second}});
     for (size_t i = 0; i < segs.size(); i++) for (size_t j = i + 1; j < segs.size(); j++) if (segs[i].first != segs[j].first) { const Seg &A = segs[i].second, &B = segs[j].second; bool ah = A.y1 == A.y2, bh = B.y1 == B.y2; if (ah == bh) continue; const Seg &H = ah ? A : B, &V = ah ? B : A; if (V.x1 > std::min(H.x1, H.x2) && V.x1 < std::max(H.x1, H.x2) && H.y1 > std::min(V.y1, V.y2) && H.y1 < std::max(V.y1, V.y2)) crossings++; }
-    res.gen = crossings == 0 ? "no-crossings" : crossings < 4 ? "few-crossings" : "many-crossings"; res.nontrivial = crossings > 0; res.count("input_route_crossings", crossings);
+    res.gen = crossings == 0 ? "no-crossings" : crossings < 4 ? "few-crossings" : "many-crossings"; if (!extraH.empty() || !extraV.empty()) { res.gen += "+collinear-route-points"; res.count("routes_with_collinear_interior_points_cases"); } res.nontrivial = crossings > 0; res.count("input_route_crossings", crossings);
     Graph_SP G = std::make_shared<Graph>(); std::vector<Node_SP> ns;
     for (int i = 0; i < n; i++) { Node_SP u = Node::allocate(); u->setDims(6, 6); u->setCentre(pos[i].first, pos[i].second); G->addNode(u); ns.push_back(u); }
     for (auto &e : er) { Edge_SP ed = G->addEdge(ns[e.s], ns[e.t]); std::vector<Avoid::Point> r; for (auto &q : e.route) r.push_back(Avoid::Point(q.first, q.second)); ed->setRoute(r); }
@@ -169,9 +178,13 @@ static void case_planarise(const Args &a, long idx, bool wantDesc, CaseResult &r
     for (size_t i = 0; i < qes.size(); i++) for (size_t j = i + 1; j < qes.size(); j++) for (auto &A : qes[i].segs) for (auto &B : qes[j].segs) {
         double lx, ly, hx, hy; res.count("result_edge_pairs_checked"); if (!inter(A, B, lx, ly, hx, hy)) continue;
         bool point = hx - lx <= 1e-9 && hy - ly <= 1e-9; bool ok = false;
-        if (point) { // must be the centre of a node both edges end at
-            for (id_type c : {qes[i].s, qes[i].t}) if (c == qes[j].s || c == qes[j].t) { auto p = Q->getNode(c)->getCentre(); if (std::fabs(p.x - lx) <= 1e-6 && std::fabs(p.y - ly) <= 1e-6) ok = true; } }
-        if (!ok) { res.violate(point ? "planarise:two-result-edges-cross" : "planarise:two-result-edges-overlap", wit(JObj().raw("edge_a", JArr().i(qes[i].s).i(qes[i].t).done()).raw("edge_b", JArr().i(qes[j].s).i(qes[j].t).done()).raw("where", JArr().num(lx).num(ly).num(hx).num(hy).done()))); return; }
+        if (point) { // both edges must END there (normally at a common node; a collinear route point that is also a crossing gets a bend node and a crossing node on the same spot, which is
+                     // counted below as an observation but is not a crossing: neither edge continues through the point)
+            auto endsAt = [&](const QE &q) { for (id_type c : {q.s, q.t}) { auto p = Q->getNode(c)->getCentre(); if (std::fabs(p.x - lx) <= 1e-6 && std::fabs(p.y - ly) <= 1e-6) return true; } return false; };
+            ok = endsAt(qes[i]) && endsAt(qes[j]);
+            if (ok) { bool common = false; for (id_type c : {qes[i].s, qes[i].t}) if (c == qes[j].s || c == qes[j].t) common = true; if (!common) res.count("edge_pairs_meeting_at_two_coincident_nodes"); } }
+        std::string tag; if (extraH.count({lx, ly}) || extraH.count({hx, hy})) tag = "[at-a-collinear-route-point-of-a-horizontal-run]"; else if (extraV.count({lx, ly}) || extraV.count({hx, hy})) tag = "[at-a-collinear-route-point-of-a-vertical-run]"; else if (!extraH.empty() || !extraV.empty()) tag = "[routes-have-collinear-points-elsewhere]";
+        if (!ok) { res.violate(std::string(point ? "planarise:two-result-edges-cross" : "planarise:two-result-edges-overlap") + tag, wit(JObj().raw("edge_a", JArr().i(qes[i].s).i(qes[i].t).done()).raw("edge_b", JArr().i(qes[j].s).i(qes[j].t).done()).raw("where", JArr().num(lx).num(ly).num(hx).num(hy).done()))); return; }
     }
     // former neighbours still connected through chains of new nodes only
     for (auto &e : er) {
